@@ -679,72 +679,17 @@ theorem trigger_ops (F : Flat) (m ev : Nat) (ms : MS) (t : Trans) (d : Nat)
 
 /-! ### construction (shared `tags=` list objects) -/
 
-theorem mem_initHeap (t ref : Nat) :
-    ∀ (defs : List SDef) (heap : Nat → List Nat),
-      t ∈ initHeap defs heap ref ↔
-        (t ∈ heap ref ∨ (t = 0 ∧ ∃ d ∈ defs, d.tagsRef = some ref ∧ d.accepted = true)) := by
+theorem initHeap_eq : ∀ (defs : List SDef) (heap : Nat → List Nat), initHeap defs heap = heap := by
   intro defs
   induction defs with
-  | nil => intro heap; simp [initHeap]
-  | cons d r ih =>
-    intro heap
-    unfold initHeap
-    cases hd : d.tagsRef with
-    | none =>
-      simp only [ih]
-      simp [hd]
-    | some ref' =>
-      simp only [ih]
-      by_cases ha : d.accepted = true
-      · by_cases hr : ref' = ref
-        · subst hr
-          simp only [ha, if_true, hset, List.mem_append, List.mem_cons, List.not_mem_nil, or_false]
-          constructor
-          · rintro ((h | h) | ⟨h0, d', hd', h1, h2⟩)
-            · exact .inl h
-            · exact .inr ⟨h, d, .inl rfl, hd, ha⟩
-            · exact .inr ⟨h0, d', .inr hd', h1, h2⟩
-          · rintro (h | ⟨h0, d', hd' | hd', h1, h2⟩)
-            · exact .inl (.inl h)
-            · exact .inl (.inr h0)
-            · exact .inr ⟨h0, d', hd', h1, h2⟩
-        · have hne : ref ≠ ref' := fun h => hr h.symm
-          simp only [ha, if_true, hset, hne, if_false, List.mem_cons]
-          constructor
-          · rintro (h | ⟨h0, d', hd', h1, h2⟩)
-            · exact .inl h
-            · exact .inr ⟨h0, d', .inr hd', h1, h2⟩
-          · rintro (h | ⟨h0, d', hd' | hd', h1, h2⟩)
-            · exact .inl h
-            · subst hd'
-              rw [hd] at h1
-              exact absurd (Option.some.inj h1) hr
-            · exact .inr ⟨h0, d', hd', h1, h2⟩
-      · have ha' : d.accepted = false := by simpa using ha
-        simp only [ha', Bool.false_eq_true, if_false, List.mem_cons]
-        constructor
-        · rintro (h | ⟨h0, d', hd', h1, h2⟩)
-          · exact .inl h
-          · exact .inr ⟨h0, d', .inr hd', h1, h2⟩
-        · rintro (h | ⟨h0, d', hd' | hd', h1, h2⟩)
-          · exact .inl h
-          · subst hd'
-            rw [ha'] at h2
-            cases h2
-          · exact .inr ⟨h0, d', hd', h1, h2⟩
+  | nil => intro heap; rfl
+  | cons d r ih => intro heap; simp [initHeap, ih]
 
-theorem tagsExact_of_noShared (defs : List SDef) (heap : Nat → List Nat) (h : NoSharedAccepted defs) :
-    TagsExact defs heap := by
-  intro d hd t
-  unfold builtTags givenTags
-  cases hr : d.tagsRef with
-  | none => by_cases ha : d.accepted = true <;> simp [ha]
-  | some ref =>
-    simp only [mem_initHeap]
-    constructor
-    · rintro (h1 | ⟨h0, d', hd', h1, h2⟩)
-      · exact .inl h1
-      · exact .inr ⟨h0, h d hd d' hd' (by simp [hr]) (by rw [hr, h1]) h2⟩
-    · rintro (h1 | ⟨h0, h2⟩)
-      · exact .inl h1
-      · exact .inr ⟨h0, d, hd, hr, h2⟩
+theorem tagsExact (defs : List SDef) (heap : Nat → List Nat) : TagsExact defs heap := by
+  intro d _ t
+  unfold builtTags
+  rw [initHeap_eq]
+  by_cases ha : d.accepted = true <;> simp [ha]
+
+end Feat
+end TM
